@@ -13,6 +13,7 @@ import (
 	"verif/checks/c10"
 	"verif/checks/c11"
 	"verif/checks/c12"
+	"verif/checks/c13"
 	"verif/checks/c14"
 	"verif/checks/c15"
 	"verif/checks/c16"
@@ -23,6 +24,7 @@ import (
 )
 
 func init() {
+	register("C13", "model_checking", c13.Run)
 	register("C14", "model_checking", c14.Run)
 	register("C05", "exploration", c05.Run)
 	register("C19", "model_checking", c19.Run)
